@@ -402,7 +402,7 @@ class CFG(object):
                     # gens do not hold, its kills do
                     f = _apply_kill(fx, kills[x], susp[x] and kill_on_suspend)
                 elif lab and lab[0] == "cond":
-                    f = out | cond_atoms(lab[1], lab[2])
+                    f = out | cond_facts(out, lab[1], lab[2])
                 new = f if fin[t] is TOP else (fin[t] & f)
                 if fin[t] is TOP or new != fin[t]:
                     fin[t] = new
@@ -445,7 +445,7 @@ class CFG(object):
                     if lab == ("exc",):
                         outs.append(base)
                     elif lab and lab[0] == "cond":
-                        outs.append((base | gens[x]) | cond_atoms(lab[1], lab[2]))
+                        outs.append((base | gens[x]) | cond_facts(base | gens[x], lab[1], lab[2]))
                     else:
                         outs.append(base | gens[x])
                 state = frozenset.intersection(*outs) if outs else base
@@ -547,7 +547,106 @@ def _gens(n):
                 out.add((c, False))
             elif v is True:
                 out.add((c, True))
+    # definition facts: after `x = E` (E pure, not mentioning x) the fact `(x := E)` holds until x or a name of E is
+    # written; after `self.a = x` the local x denotes self.a.  They let a test on a temporary establish the facts of
+    # the expression it names (cond_facts) and let rules resolve aliases flow-sensitively (resolve_at).
+    if n.kind == "stmt" and isinstance(st, (ast.Assign, ast.AnnAssign)) and getattr(st, "value", None) is not None:
+        targets = st.targets if isinstance(st, ast.Assign) else [st.target]
+        if len(targets) == 1:
+            t = targets[0]
+            if isinstance(t, ast.Name) and pure_for_def(st.value) and not isinstance(st.value, ast.Constant):
+                if t.id not in {x.id for x in ast.walk(st.value) if isinstance(x, ast.Name)}:
+                    out.add(("(%s := %s)" % (t.id, unparse(st.value)), True))
+            elif isinstance(t, ast.Attribute) and isinstance(st.value, ast.Name) and attr_chain(t):
+                out.add(("(%s := %s)" % (st.value.id, attr_chain(t)), True))
     return frozenset(out)
+
+
+_DEF_PURE_FUNCS = {"len", "isinstance", "min", "max", "int", "abs", "bool", "type"}
+
+
+def pure_for_def(e):
+    if isinstance(e, (ast.Constant, ast.Name)):
+        return True
+    if isinstance(e, ast.Attribute):
+        return pure_for_def(e.value)
+    if isinstance(e, ast.UnaryOp):
+        return pure_for_def(e.operand)
+    if isinstance(e, ast.BinOp):
+        return pure_for_def(e.left) and pure_for_def(e.right)
+    if isinstance(e, ast.BoolOp):
+        return all(pure_for_def(v) for v in e.values)
+    if isinstance(e, ast.Compare):
+        return pure_for_def(e.left) and all(pure_for_def(c) for c in e.comparators)
+    if isinstance(e, ast.IfExp):
+        return pure_for_def(e.test) and pure_for_def(e.body) and pure_for_def(e.orelse)
+    if isinstance(e, ast.Call) and isinstance(e.func, ast.Name) and e.func.id in _DEF_PURE_FUNCS and not e.keywords:
+        return all(pure_for_def(a) for a in e.args)
+    return False
+
+
+def def_facts(facts):
+    """name -> defining expression (ast) for the definition facts among `facts`."""
+    out = {}
+    for t, pol in facts:
+        if pol and t.startswith("(") and " := " in t:
+            e = _DEF_CACHE.get(t)
+            if e is None:
+                try:
+                    e = ast.parse(t, mode="eval").body
+                except SyntaxError:
+                    continue
+                _DEF_CACHE[t] = e
+            if isinstance(e, ast.NamedExpr):
+                out[e.target.id] = e.value
+    return out
+
+
+_DEF_CACHE = {}
+
+
+class _DefSubst(ast.NodeTransformer):
+    def __init__(self, defs):
+        self.defs = defs
+        self.hit = False
+
+    def visit_Name(self, node):
+        if isinstance(node.ctx, ast.Load) and node.id in self.defs:
+            self.hit = True
+            import copy
+
+            return copy.deepcopy(self.defs[node.id])
+        return node
+
+    def visit_Lambda(self, node):
+        return node
+
+
+def resolve_at(facts, expr, rounds=4):
+    """expr with every local that a definition fact among `facts` names replaced by its definition (flow-sensitive:
+    the fact holds only while neither the local nor anything its definition reads has been written)."""
+    import copy
+
+    defs = def_facts(facts)
+    e = copy.deepcopy(expr)
+    for _ in range(rounds):
+        if not defs:
+            break
+        s = _DefSubst(defs)
+        e = s.visit(e)
+        if not s.hit:
+            break
+    return e
+
+
+def cond_facts(state, test, pol):
+    """cond_atoms of the test, plus the atoms of the test with temporaries replaced by their definitions."""
+    out = cond_atoms(test, pol)
+    defs = def_facts(state)
+    if defs and any(isinstance(x, ast.Name) and x.id in defs for x in ast.walk(test)):
+        r = resolve_at(state, test)
+        out = out | cond_atoms(r, pol)
+    return out
 
 
 def cond_atoms(test, pol):
